@@ -131,6 +131,7 @@ def make_histories(tier, rng):
                 hs.append([dict(st)] + [dict(op="set", name=n, variant=v) for n in XMLS] + [dict(op="touch", name="styles.xml"), dict(op="touch", name="content.xml"),
                           dict(op="save", packaging=pk, target=tg, pretty=pty), dict(op="reopen", r=1), dict(op="touch", name="meta.xml"), dict(op="touch", name="settings.xml")])
     hs += pkglib.flat_image_histories(S, Tm["text"], tier)
+    hs += pkglib.object_pretty_histories(S, starts, rng)
     hs += pkglib.resave_histories([starts[0], dict(op="open", src=small[5], buf=False)], rng)
     # F35: a package without manifest.rdf, opened by path / by buffer; the user provides one and lists it; save
     import zipfile
